@@ -191,6 +191,13 @@ const ISOLATED: &[&str] = &[
     "(n: int) -> int { return [n, 2, 3]~ $ 0 (a: int, x: int) -> int { return a * 31 + x } }",
     "(n: int) -> bool { return [n > 0, true]~ $&& || [false]~ $|| }",
     "(n: int) -> int { m := mod { a := n; f := (x: int) -> int { return x + a } }; return m.f(1) + [n, n]~ $& + [n, 1]~ $| + [n, 2]~ $* }",
+    // state created while running (default cell of an exhausted `? mut int`, closure counters, iterator positions)
+    // belongs to the run, not to the parsed function
+    "(n: int) -> int { it := [mut 1, 2]~ ? mut int; it(); d := it().1; d += n; return *d }",
+    "(n: int) -> int { c := mut n; g := () -> int { c += 1; return *c }; g(); return g() }",
+    "(n: int) -> [int] { it := [n, 2, 3]~; it(); return it $] }",
+    "(n: int) -> [int] { out := mut [int] []; for x in [n, 1]~ { out += [x]; } for x in [n, 1]~ { out += [x]; } return *out }",
+    "(n: int) -> int { cs := [mut 1, mut 2]~ ? mut int $]; cs[0] += n; return *cs[0] + *cs[1] }",
 ];
 
 /// no shared cell: every thread's result equals the sequential result; helpers are first touched concurrently
@@ -245,6 +252,73 @@ fn isolated(threads: usize, rounds: usize, yield_every: u64) -> Result<(u64, Str
         }
     }
     Ok(((threads * rounds * ISOLATED.len()) as u64, format!("{threads} threads x {rounds} rounds x {} functions agree with the sequential run", ISOLATED.len())))
+}
+
+/// some threads increment a shared cell, others apply compound assignments that *fail* (division by zero, shift out
+/// of range, negative exponent): every failing assignment must report its documented error and leave the cell as it
+/// was, so the final content is start + number of increments and nobody ever sees a non-int
+fn failing_writers(threads: usize, rounds: usize, yield_every: u64) -> Result<(u64, String), String> {
+    const FAILING: [(&str, i64, &str); 5] = [("/=", 0, "ZeroDivision"), ("%=", 0, "ZeroModulo"), ("<<=", 64, "OverflowShift"), (">>=", -1, "OverflowShift"), ("**=", -1, "NegativeExponent")];
+    let inc = parse_function("(c: mut int, n: int) -> int { i := mut 0; while *i < n { i += 1; c += 1; } return *c }").ok_or("incrementer rejected")?;
+    let failers: Vec<Arc<Function>> = FAILING.iter().filter_map(|(op, _, _)| parse_function(&format!("(c: mut int, x: int) -> int {{ return c {op} x }}"))).collect();
+    if failers.len() != FAILING.len() {
+        return Err("a failing-assignment function was rejected".into());
+    }
+    let reader = parse_function("(c: mut int, n: int) -> int { i := mut 0; t := mut 0; while *i < n { i += 1; t += *c * 0; } return *t }").ok_or("reader rejected")?;
+    let start = 100i64;
+    let cell = Arc::new(Mut { var_type: Type::Int, variable: RwLock::new(Variable::Int(start)) });
+    let barrier = Arc::new(Barrier::new(threads));
+    let failers = Arc::new(failers);
+    let mut handles = Vec::new();
+    for t in 0..threads {
+        let (inc, reader, failers, cell, barrier) = (inc.clone(), reader.clone(), failers.clone(), cell.clone(), barrier.clone());
+        handles.push(std::thread::Builder::new().stack_size(64 << 20).spawn(move || -> Result<u64, String> {
+            verif::set_yield_every(if yield_every == 0 { 0 } else { yield_every + t as u64 % 2 });
+            barrier.wait();
+            match t % 3 {
+                0 => {
+                    let code = inc.create_call(vec![Variable::Mut(cell), Variable::Int(rounds as i64)]).map_err(|e| format!("{e}"))?;
+                    match real::guarded(|| code.exec()) {
+                        Ok(Ok(_)) => Ok(rounds as u64),
+                        Ok(Err(e)) => Err(format!("incrementing thread failed with {e:?}")),
+                        Err(p) => Err(format!("incrementing thread panicked at {}: {}", p.site(), p.short_msg())),
+                    }
+                }
+                1 => {
+                    for r in 0..rounds {
+                        let k = (r + t) % FAILING.len();
+                        let code = failers[k].clone().create_call(vec![Variable::Mut(cell.clone()), Variable::Int(FAILING[k].1)]).map_err(|e| format!("{e}"))?;
+                        match real::guarded(|| code.exec()) {
+                            Ok(Err(e)) if format!("{e:?}").starts_with(FAILING[k].2) => {}
+                            Ok(other) => return Err(format!("`c {} {}` gave {other:?}, documented error {}", FAILING[k].0, FAILING[k].1, FAILING[k].2)),
+                            Err(p) => return Err(format!("failing assignment panicked at {}: {}", p.site(), p.short_msg())),
+                        }
+                    }
+                    Ok(0)
+                }
+                _ => {
+                    let code = reader.create_call(vec![Variable::Mut(cell), Variable::Int(rounds as i64)]).map_err(|e| format!("{e}"))?;
+                    match real::guarded(|| code.exec()) {
+                        Ok(Ok(Variable::Int(0))) => Ok(0),
+                        Ok(other) => Err(format!("reading thread got {other:?}")),
+                        Err(p) => Err(format!("reading thread panicked at {}: {}", p.site(), p.short_msg())),
+                    }
+                }
+            }
+        }).map_err(|e| format!("spawn: {e}"))?);
+    }
+    let mut increments = 0u64;
+    for h in handles {
+        increments += h.join().map_err(|_| "worker thread died".to_string())??;
+    }
+    let final_value = match cell.variable.read() {
+        Ok(g) => g.clone(),
+        Err(_) => return Err("the cell's lock is poisoned".into()),
+    };
+    if final_value != Variable::Int(start + increments as i64) {
+        return Err(format!("after {increments} increments and failing assignments the cell holds {}, expected {}", canon(&final_value), start + increments as i64));
+    }
+    Ok(((threads * rounds) as u64, format!("{threads} threads (increment / failing op= / read) x {rounds}: cell holds {}", canon(&final_value))))
 }
 
 /// readers print cells (incl. a cell that contains itself) while writers assign
@@ -326,6 +400,7 @@ pub fn child(spec: &str) {
             "isolated" => isolated(threads, size, yld),
             r if r.starts_with("readers") => readers_writers(r[7..].parse().unwrap_or(0), threads, size, yld),
             "code" => shared_code(threads, size),
+            "failing" => failing_writers(threads.max(3), size, yld),
             other => Err(format!("unknown scenario {other}")),
         }
     };
@@ -358,10 +433,11 @@ pub fn run(cfg: &Cfg, rep: &mut Report) {
         }
         let threads = *rng.pick(&[2usize, 2, 3, 4, 4, 8, 16]);
         let yld = *rng.pick(&[0usize, 0, 1, 2, 5]);
-        let (scenario, size) = match rng.below(10) {
+        let (scenario, size) = match rng.below(12) {
             0..=5 => (format!("cell{}", rng.below(OPS.len())), *rng.pick(&[3usize, 10, 50, 200, 1000])),
             6 | 7 => ("isolated".to_string(), *rng.pick(&[1usize, 3, 10])),
             8 => (format!("readers{}", rng.below(4)), *rng.pick(&[5usize, 30, 100])),
+            9 | 10 => ("failing".to_string(), *rng.pick(&[5usize, 40, 200])),
             _ => ("code".to_string(), *rng.pick(&[5usize, 50])),
         };
         let spec = format!("{scenario}:{threads}:{size}:{yld}");
